@@ -85,6 +85,11 @@ class TCPServer:
                 except (ConnectionError, RuntimeError):
                     await self.protocol.handle(Closed())
         elif isinstance(event, Closed):
+            # Closing waits for what has been written to be flushed,
+            # which a client that has stopped reading prevents: tell
+            # the protocol first so that any send waiting for this
+            # client is released.
+            await self.protocol.handle(Closed())
             await self._close()
         elif isinstance(event, Updated):
             if event.idle and self._reading:
